@@ -8,6 +8,13 @@ Local Open Scope string_scope.
 Theorem c04_card_len : forall key v, String.length key <= 8 -> fits v -> String.length (format_line key v) = 80.
 Proof. exact card_len. Qed.
 Print Assumptions c04_card_len.
+(* no card the writer emits can be mistaken for the terminator, whatever its keyword (ENDTIME, END_MJD, ... included): byte 8 of a
+   card is '=', byte 8 of the END card is a blank.  So the hypothesis "no card equals END" of c04_emit_parse holds of every header
+   the writer produces, and a reader has to compare the whole card (or at least "END" followed by a blank), not a prefix. *)
+Theorem c04_card_is_not_end : forall key v, String.length key <= 8 ->
+  format_line key v <> end_card /\ String.get 8 (format_line key v) = Some "="%char /\ String.get 8 end_card = Some " "%char.
+Proof. intros key v Hk. exact (conj (card_not_end key v Hk) (conj (card_byte8 key v Hk) eq_refl)). Qed.
+Print Assumptions c04_card_is_not_end.
 
 (* zero padding up to the next multiple of 512 iff DIRECTIO, none when already aligned *)
 Theorem c04_padding : forall n,
